@@ -208,7 +208,9 @@ def _parse_slice(pattern):
 
     if len(segs) < 3:
         return (SLICE, slice(start, stop))
-    stride = segs[2] and int(segs[2]) or 1
+    # an explicit step of 0 stays 0: slicing with it raises ValueError, as for
+    # any Python sequence
+    stride = int(segs[2]) if segs[2] else 1
     if not segs[0]:
         start = None
     return (SLICE, slice(start, stop, stride))
